@@ -34,11 +34,12 @@ def run_driver(c, binp, mode, cfg, timeout=900):
     return load_traces(cfg["out"])
 
 
-def validate(c, traces, cfg="TxnStoreTrace.cfg", dfs=False):
+def validate(c, traces, cfg="TxnStoreTrace.cfg", dfs=False, chunk=200, parallel=0):
     """traces: list of (name, header, raw events). Returns rejections with header attached."""
     hdr = {n: h for n, h, _ in traces}
     raw = {n: evs for n, _, evs in traces}
-    rej = c.validate_traces("TxnStoreTrace", cfg, [(n, [norm(e) for e in evs]) for n, _, evs in traces], dfs=dfs)
+    rej = c.validate_traces("TxnStoreTrace", cfg, [(n, [norm(e) for e in evs]) for n, _, evs in traces], dfs=dfs,
+                            chunk=chunk, parallel=parallel)
     for r in rej:
         r["header"] = hdr[r["trace"]]
         r["raw"] = raw[r["trace"]]
